@@ -64,11 +64,21 @@ func gradientDescent(f func(ConstVector) (MagicScalar, error), x0 Vector, step, 
       break
     }
     // update variables
+    changed := false
     for i := 0; i < x.Dim(); i++ {
+      v := x.ConstAt(i).GetFloat64()
       x.At(i).Sub(x.At(i), ConstFloat64(step*s.GetDerivative(i)))
       if math.IsNaN(x.ConstAt(i).GetFloat64()) {
         panic("Gradient descent diverged!")
       }
+      if x.ConstAt(i).GetFloat64() != v {
+        changed = true
+      }
+    }
+    // the step is below the resolution of the floating point numbers,
+    // the same point would be evaluated forever
+    if !changed {
+      break
     }
   }
   return x, nil
